@@ -35,11 +35,13 @@ pub fn hist_cfg(prop: &str, run_seed: u64, thorough: bool) -> HistCfg {
     let mut foreign = 40;
     let mut bad = 50;
     let mut load_fault = 150;
+    let mut abuse = 0;
     // which fault configuration: C12 never has faults; the others alternate
-    let ghost_on = prop != "C12" && rng.chance(1, 2);
+    let ghost_on = prop == "C16" || (prop != "C12" && rng.chance(1, 2));
     match prop {
         "C03" => {
             stale = 150;
+            abuse = 40;
             boost(&mut weights, &[K::ERemove, K::ERemoveKind, K::EMove, K::EMoveAt, K::MRemoveFile, K::ItOpen, K::ItNext, K::ESort], 2);
         }
         "C04" => {
@@ -65,6 +67,7 @@ pub fn hist_cfg(prop: &str, run_seed: u64, thorough: bool) -> HistCfg {
             boost(&mut weights, &[K::MLoadBuffer], 3);
         }
         "C12" => {
+            abuse = 100;
             stale = 80;
             selfp = 60;
             foreign = 60;
@@ -94,6 +97,7 @@ pub fn hist_cfg(prop: &str, run_seed: u64, thorough: bool) -> HistCfg {
             foreign_permille: foreign,
             bad_permille: bad,
             load_fault_permille: load_fault,
+            abuse_permille: abuse,
         },
         n_ops,
         max_nodes,
@@ -107,7 +111,7 @@ pub fn hist_cfg(prop: &str, run_seed: u64, thorough: bool) -> HistCfg {
         },
         scripted: None,
         keep_trace: false,
-        reload_every: if prop == "C10" { 6 } else { 0 },
+        reload_every: if prop == "C10" { 1 } else { 0 },
         stop_at_first: true,
         harvest_edges: false,
         check_from: 0,
